@@ -142,6 +142,11 @@ fn gen_accepted_table(rng: &mut Rng, target: usize, versioned_pct: u64, same_pat
     eps
 }
 
+const PCT_VALUES: &[&str] = &[
+    "a%2Fb", "%2F", "%2f%2F", "x%2f..", "..%2Fy", ".%2F.", "%61", "%41%2fb%2Fc", "a%252Fb", "%2e%2e", "%2E", "a%20b", "%C3%A9",
+    "..%2F..%2Fetc", "%2Fa", "a%2F",
+];
+
 fn instantiate(rng: &mut Rng, template: &str) -> String {
     let mut out = String::new();
     for seg in template.split('/').filter(|s| !s.is_empty()) {
@@ -150,11 +155,21 @@ fn instantiate(rng: &mut Rng, template: &str) -> String {
                 let n = rng.below(4);
                 for _ in 0..n {
                     out.push('/');
-                    out.push_str(rng.pick_s(&["a", "b", "q", "x", "users"]));
+                    if rng.chance(1, 5) {
+                        // percent-encoded spellings: an encoded slash stays inside its
+                        // component, an encoded letter is that letter
+                        out.push_str(rng.pick_s(PCT_VALUES));
+                    } else {
+                        out.push_str(rng.pick_s(&["a", "b", "q", "x", "users"]));
+                    }
                 }
             } else {
                 out.push('/');
-                out.push_str(rng.pick_s(&["a", "b", "q", "x", "42"]));
+                if rng.chance(1, 8) {
+                    out.push_str(rng.pick_s(PCT_VALUES));
+                } else {
+                    out.push_str(rng.pick_s(&["a", "b", "q", "x", "42"]));
+                }
             }
         } else {
             out.push('/');
